@@ -441,73 +441,75 @@ theorem process_no_progress {E : Env} {s : St} (hq : QInv s)
 
 /-! ### quiescence -/
 
-/-- Nothing can happen without a further API call / clock move / finished run: the main loop cannot move
-(it is parked at its `select` with no tick, or spins without being able to dispatch) and the timer cannot fire. -/
-def Quiescent (E : Env) (s : St) : Prop := loopRun E [] 1 s = s ∧ kick s = s
+/-- A pass of the inner loop that leaves the history as it was found nothing it could dispatch. -/
+theorem loopIter_no_progress {E : Env} {u : St} (hq : QInv u)
+    (h : (loopIter E [] u).1.trace.length = u.trace.length) :
+    ∀ it ∈ u.queue, it.whn ≤ u.now → (aget u.busy (E.wk it.id)).isSome = true := by
+  intro it hit hdue
+  unfold loopIter at h
+  cases hh : u.queue.head? with
+  | none => rw [head_none hh] at hit; simp at hit
+  | some hd =>
+    rw [hh] at h
+    simp only at h
+    by_cases hst : hd.whn > u.now
+    · have := head_min hq.sorted hh it hit
+      omega
+    · rw [if_neg hst] at h
+      have hp : (process E [] u).trace.length = u.trace.length := by
+        cases hh1 : (process E [] u).queue.head? with
+        | none => rw [hh1] at h; simpa using h
+        | some it1 =>
+          rw [hh1] at h
+          simp only at h
+          split at h <;> simpa using h
+      exact process_no_progress hq hp it hit hdue
 
-instance (E : Env) (s : St) : Decidable (Quiescent E s) := by unfold Quiescent; exact inferInstance
+theorem loopRun_one_trace (E : Env) (u : St) (hsp : u.spinning = true) :
+    (loopRun E [] 1 u).trace = (loopIter E [] u).1.trace := by
+  unfold loopRun
+  simp only [hsp, ite_true, loopRun]
+  split
+  · split <;> rfl
+  · rfl
 
 theorem quiescent_due_busy {E : Env} {s : St} (hg : Good E s) (ht : TInv s) (hq : Quiescent E s) :
     ∀ it ∈ s.queue, it.whn ≤ s.now → (aget s.busy (E.wk it.id)).isSome = true := by
   obtain ⟨hl, hk⟩ := hq
   intro it hit hdue
-  unfold loopRun at hl
   by_cases hsp : s.spinning = true
-  · simp only [hsp, ite_true, loopRun] at hl
-    by_cases hc : (loopIter E [] s).2 = true
-    · simp only [hc, ite_true] at hl
-      have hr : (loopIter E [] s).1 = s := by
-        split at hl <;> exact hl
-      -- the pass went all the way round: it ran process() and dispatched nothing
-      unfold loopIter at hr hc
-      cases hh : s.queue.head? with
-      | none => rw [hh] at hc; simp at hc
-      | some hd =>
-        rw [hh] at hr hc
-        simp only at hr hc
-        by_cases hst : hd.whn > s.now
-        · simp [hst] at hc
-        · simp only [hst, ite_false] at hr hc
-          cases hh1 : (process E [] s).queue.head? with
-          | none => rw [hh1] at hc; simp at hc
-          | some it1 =>
-            rw [hh1] at hr hc
-            simp only at hr hc
-            by_cases hu : it1.whn - (process E [] s).now > 0
-            · rw [if_pos hu] at hc; simp at hc
-            · rw [if_neg hu] at hr
-              simp only at hr
-              have htr : (process E [] s).trace = s.trace := by
-                have := congrArg St.trace hr
-                simpa using this
-              exact process_no_progress hg.q (by rw [htr]) it hit hdue
-    · have hc' : (loopIter E [] s).2 = false := by simpa using hc
-      simp only [hc', Bool.false_eq_true, ite_false] at hl
-      have := congrArg St.spinning hl
-      simp [hsp] at this
+  · have := loopRun_one_trace E s hsp
+    rw [hl] at this
+    exact loopIter_no_progress hg.q (by rw [← this]) it hit hdue
   · have hsp' : s.spinning = false := by simpa using hsp
-    simp only [hsp', Bool.false_eq_true, ite_false, loopRun] at hl
     by_cases htk : s.tick = true
-    · simp only [htk, ite_true] at hl
+    · unfold loopRun at hl
+      simp only [hsp', Bool.false_eq_true, ite_false, htk, ite_true, loopRun] at hl
       have := congrArg St.tick hl
       simp [htk] at this
     · have htk' : s.tick = false := by simpa using htk
-      -- parked at the select, no tick: the timer invariant says the armed deadline is not after the item
       cases hw : s.swhen with
       | none => have := ht.k2 hw; rw [this] at hit; simp at hit
       | some w =>
         rcases ht.j w hw with h1 | h1 | ⟨d, hd, h2⟩
         · rw [hsp'] at h1; cases h1
         · rw [htk'] at h1; cases h1
-        · have hnf : ¬ d ≤ s.now * 1000 := by
-            intro hle
-            unfold kick at hk
-            simp only [htk', Bool.false_eq_true, ite_false, hd, hle, ite_true] at hk
-            have := congrArg St.tick hk
-            simp [htk'] at this
-          have hk1 := ht.k1 w hw it hit
-          rcases h2 with h2 | h2
-          · exact absurd h2 hnf
-          · omega
+        · by_cases hle : d ≤ s.now * 1000
+          · -- the timer can fire (a deadline in the past): the pass it causes changed nothing
+            have hkick : kick s = { s with tick := true, timer := none } := by
+              unfold kick
+              simp [htk', hd, hle]
+            rw [hkick] at hk
+            unfold loopRun at hk
+            simp only [hsp', Bool.false_eq_true, ite_false, ite_true] at hk
+            have hu := loopRun_one_trace E { s with tick := false, timer := none, spinning := true } rfl
+            rw [hk] at hu
+            have hqu : QInv { s with tick := false, timer := none, spinning := true } :=
+              ⟨hg.q.whn, hg.q.uniq, hg.q.idx, hg.q.sorted⟩
+            exact loopIter_no_progress hqu (by rw [← hu]) it hit hdue
+          · have hk1 := ht.k1 w hw it hit
+            rcases h2 with h2 | h2
+            · exact absurd h2 hle
+            · omega
 
 end Kap.C17
